@@ -302,7 +302,7 @@ pub fn par_for(cfg: &Cfg, n: usize, f: impl Fn(usize, &mut Report) + Sync) -> Re
         let mut r = Report::new();
         for i in 0..n {
             if cfg.mine(i) {
-                f(i, &mut r);
+                guarded(&f, i, &mut r);
             }
         }
         return r;
@@ -320,7 +320,7 @@ pub fn par_for(cfg: &Cfg, n: usize, f: impl Fn(usize, &mut Report) + Sync) -> Re
                         break;
                     }
                     if cfg.mine(i) {
-                        f(i, &mut r);
+                        guarded(&f, i, &mut r);
                     }
                 }
                 r
@@ -331,6 +331,14 @@ pub fn par_for(cfg: &Cfg, n: usize, f: impl Fn(usize, &mut Report) + Sync) -> Re
         }
     });
     total
+}
+
+/// A monitor that panics while examining a value konst returned (typically: formatting or comparing
+/// a `&str` that is not valid UTF-8) must not take the run down: the case is recorded as a failure.
+fn guarded(f: &(impl Fn(usize, &mut Report) + Sync), i: usize, r: &mut Report) {
+    if catch(|| f(i, &mut *r)).is_err() {
+        r.fail("C01:monitor-panicked-on-returned-value", "harness", format!("work item {}", i), "monitor code panicked while examining a returned value (see the preceding failure of this item, e.g. invalid UTF-8)".into(), "no panic".into());
+    }
 }
 
 // ---------------------------------------------------------------- panic capture
@@ -344,7 +352,7 @@ thread_local! {
 pub fn silence_panics() {
     let default = std::panic::take_hook();
     std::panic::set_hook(Box::new(move |info| {
-        if IN_CATCH.with(|c| c.get()) == 0 {
+        if IN_CATCH.with(|c| c.get()) == 0 || std::env::var_os("KV_SHOW_PANICS").is_some() {
             default(info);
         }
     }));
